@@ -19,7 +19,9 @@
 // tfu_pre / has_service / svc_filter / un_sum / the moved activities from the removed nodes to the nodes of the whole tour.
 // The block after it ("CLOSURE") is NOT copied either: the induction step of C10 / C09 / C11 -- the result of remove_segment
 // satisfies rs_ok again -- proved from the effect clauses of the contract (rs_effect): so_* (sched_ok in groups), listing_exact
-// (premise A-listing), listing_follows, listings_kept, maps_at, tour_facts, shrunk_tour_facts, tr_step, lemma_closure_* and their
+// (formerly the premise A-listing, now PROVED: sched_vehicles is defined in env/schedule_shim.vs; lemma_listing_frame / _lose,
+// lemma_sched_vehicles_lose, lemma_types_listed -- LISTING-LEMMAS, same text in env/dummy_ops_shim.vs --, lemma_listing_follows_holds,
+// lemma_listing_exact_holds), listing_follows, listings_kept, maps_at, tour_facts, shrunk_tour_facts, tr_step, lemma_closure_* and their
 // helpers (lemma_first_pos: text of slices/admission.vs).  Robustness rules of that block: the big open conjunctions (rs_ok, sched_ok,
 // rs_effect) are unfolded only in the extraction lemmas lemma_rs_parts / lemma_so_parts / lemma_effect_*; every other lemma hides them;
 // facts about the maps are POINTWISE (maps_at / lemma_maps_at for one id, lemma_vehicle_ok_at, lemma_formation_at, lemma_listed_at:
@@ -1131,10 +1133,10 @@ impl Schedule {
         &&& s1.tours@.contains_key(u) <==> s1.vehicles@.contains_key(u)
         &&& self.tours@.contains_key(u) <==> self.vehicles@.contains_key(u)
     }
-    /// a SUFFICIENT condition for listing_exact(result) in terms of the old listing: the listing of the result follows the grouped
-    /// id lists, whose change IS proved -- unchanged in the partial case (vehicle_set_unchanged: network and grouped id lists are
-    /// the same), one occurrence of the id taken out in the whole-tour case (vehicle_gone: exactly one occurrence leaves the list
-    /// of the vehicle's type; others_untouched: the lists of the other types are the same)
+    /// the effect on the listing (PROVED: lemma_listing_follows_holds; it implies listing_exact(result): lemma_listing_follows): the
+    /// listing of the result follows the grouped id lists -- unchanged in the partial case (vehicle_set_unchanged: network and grouped
+    /// id lists are the same), one occurrence of the id taken out in the whole-tour case (vehicle_gone: exactly one occurrence leaves
+    /// the list of the vehicle's type; others_untouched: the lists of the other types are the same)
     pub open spec fn listing_follows(&self, segment: Segment, v: VehicleIdx, s1: &Schedule) -> bool {
         if self.whole_tour(segment, v) { ids_lose(sched_vehicles(self), sched_vehicles(s1), v) }
         else { sched_vehicles(s1) == sched_vehicles(self) }
@@ -1145,11 +1147,11 @@ impl Schedule {
         forall|u: VehicleIdx| self.vehicles@.contains_key(u) && self.listed_ok(u) && #[trigger] s1.vehicles@.contains_key(u) ==> s1.listed_ok(u)
     }
 }
-/// A-listing (the PREMISE of the listing / costs-cover clauses of the closure, not an assumption of the slice): the two conjuncts of
-/// sched_ok that say what the listing IS -- duplicate-free, lists exactly the vehicles that have a tour.  The vehicle listing
-/// `sched_vehicles` is an UNINTERPRETED function of the schedule (env/schedule_shim.vs: "per vehicle type of the network, the
-/// type's sorted id list"), so nothing about the listing of the RESULT follows from the effect clauses; these two conjuncts are
-/// therefore the premise, everything else in sched_ok is proved.  (Same text as rd_listing_exact of env/dummy_ops_shim.vs.)
+/// (formerly A-listing, the PREMISE of the listing / costs-cover clauses of the closure; now PROVED for the result:
+/// lemma_listing_exact_holds) the two conjuncts of sched_ok that say what the listing IS -- duplicate-free, lists exactly the vehicles
+/// that have a tour.  The vehicle listing `sched_vehicles` is DEFINED in env/schedule_shim.vs ("per vehicle type of the network, the
+/// type's sorted id list", concatenated), so the listing of the RESULT follows from the effect clauses about the network and the
+/// grouped id lists.  (Same text as rd_listing_exact of env/dummy_ops_shim.vs.)
 pub open spec fn listing_exact(s: &Schedule) -> bool {
     let vs = sched_vehicles(s);
     &&& vs.no_duplicates()
@@ -1994,7 +1996,147 @@ pub proof fn lemma_pre_costs_perm(t: TourMap, a: Seq<VehicleIdx>, b: Seq<Vehicle
         assert(pre_costs(t, b, m) == pre_costs(t, b, m - 1) + t[b[m - 1]].costs as int);
     }
 }
-/// A-listing holds if the listing of the result follows the grouped id lists (listing_follows)
+// ---- the vehicle listing as a function of the grouped id lists ---------------------------------------------------
+// sched_vehicles(s) is DEFINED (env/schedule_shim.vs): listing_of(vehicle types of the network, grouped id lists) = the id lists of
+// the network's vehicle types, one after the other.  [LISTING-LEMMAS: same text in env/remove_segment_shim.vs and env/dummy_ops_shim.vs]
+/// the listing only depends on the id lists of the listed types
+pub proof fn lemma_listing_frame(types: Seq<VehicleTypeIdx>, a: Map<VehicleTypeIdx, Vec<VehicleIdx>>, b: Map<VehicleTypeIdx, Vec<VehicleIdx>>)
+    requires forall|i: int| 0 <= i < types.len() ==> a[#[trigger] types[i]]@ == b[types[i]]@,
+    ensures listing_of(types, a) == listing_of(types, b),
+    decreases types.len(),
+{
+    if types.len() > 0 {
+        let d = types.drop_last();
+        assert forall|i: int| 0 <= i < d.len() implies a[#[trigger] d[i]]@ == b[d[i]]@ by { assert(d[i] == types[i]); }
+        lemma_listing_frame(d, a, b);
+        assert(types.last() == types[types.len() - 1]);
+    }
+}
+/// taking one position out of a concatenation takes it out of the part it lies in
+pub proof fn lemma_concat_remove(a: Seq<VehicleIdx>, b: Seq<VehicleIdx>, p: int)
+    requires 0 <= p < a.len() + b.len(),
+    ensures
+        p < a.len() ==> (a + b).remove(p) == a.remove(p) + b && (a + b)[p] == a[p],
+        p >= a.len() ==> (a + b).remove(p) == a + b.remove(p - a.len()) && (a + b)[p] == b[p - a.len()],
+{
+    if p < a.len() { assert((a + b).remove(p) =~= a.remove(p) + b); }
+    else { assert((a + b).remove(p) =~= a + b.remove(p - a.len())); }
+}
+/// if the id list of ONE listed type loses one occurrence of v (the type list is duplicate-free: the type is listed once) and the
+/// lists of the other listed types are the same, the listing loses one occurrence of v (the other entries keep their order)
+pub proof fn lemma_listing_lose(types: Seq<VehicleTypeIdx>, g0: Map<VehicleTypeIdx, Vec<VehicleIdx>>, g1: Map<VehicleTypeIdx, Vec<VehicleIdx>>, ty: VehicleTypeIdx, v: VehicleIdx)
+    requires
+        types.no_duplicates(), types.contains(ty),
+        forall|i: int| 0 <= i < types.len() && types[i] != ty ==> g1[#[trigger] types[i]]@ == g0[types[i]]@,
+        ids_lose(g0[ty]@, g1[ty]@, v),
+    ensures ids_lose(listing_of(types, g0), listing_of(types, g1), v),
+    decreases types.len(),
+{
+    let n = types.len() as int;
+    let k = choose|k: int| 0 <= k < types.len() && types[k] == ty;
+    let d = types.drop_last();
+    let last = types[n - 1];
+    assert(types.last() == last);
+    let a0 = listing_of(d, g0);
+    let a1 = listing_of(d, g1);
+    assert(listing_of(types, g0) == a0 + g0[last]@);
+    assert(listing_of(types, g1) == a1 + g1[last]@);
+    if last == ty {
+        // the type is the last one listed: the lists of the types before it are the same
+        assert forall|i: int| 0 <= i < d.len() implies g0[#[trigger] d[i]]@ == g1[d[i]]@ by {
+            assert(d[i] == types[i]);
+            assert(types[i] != types[n - 1]);
+        }
+        lemma_listing_frame(d, g0, g1);
+        let l0 = g0[ty]@;
+        let p = choose|p: int| 0 <= p < l0.len() && l0[p] == v && g1[ty]@ == #[trigger] l0.remove(p);
+        lemma_concat_remove(a0, l0, a0.len() + p);
+        assert(listing_of(types, g1) == (a0 + l0).remove(a0.len() + p));
+    } else {
+        // the type is listed before the last one, whose list is the same
+        assert(k < n - 1);
+        assert(d[k] == ty);
+        assert forall|i: int, j: int| 0 <= i < d.len() && 0 <= j < d.len() && i != j implies d[i] != d[j] by {
+            assert(d[i] == types[i] && d[j] == types[j]);
+        }
+        assert forall|i: int| 0 <= i < d.len() && d[i] != ty implies g1[#[trigger] d[i]]@ == g0[d[i]]@ by { assert(d[i] == types[i]); }
+        lemma_listing_lose(d, g0, g1, ty, v);
+        let q = choose|q: int| 0 <= q < a0.len() && a0[q] == v && a1 == #[trigger] a0.remove(q);
+        let l = g0[last]@;
+        assert(g1[types[n - 1]]@ == l);
+        lemma_concat_remove(a0, l, q);
+        assert(listing_of(types, g1) == (a0 + l).remove(q));
+    }
+}
+/// ... for two schedules over the same vehicle types: the id list of type `ty` loses one occurrence of v, the other lists are the same
+pub proof fn lemma_sched_vehicles_lose(s: &Schedule, s1: &Schedule, ty: VehicleTypeIdx, v: VehicleIdx)
+    requires
+        s.network.vehicle_types.ids_sorted@.no_duplicates(),
+        s.network.vehicle_types.ids_sorted@.contains(ty),
+        s1.network.vehicle_types.ids_sorted@ == s.network.vehicle_types.ids_sorted@,
+        s1.vehicle_ids_grouped_and_sorted@ == s.vehicle_ids_grouped_and_sorted@.insert(ty, s1.vehicle_ids_grouped_and_sorted@[ty]),
+        ids_lose(s.vehicle_ids_grouped_and_sorted@[ty]@, s1.vehicle_ids_grouped_and_sorted@[ty]@, v),
+    ensures ids_lose(sched_vehicles(s), sched_vehicles(s1), v),
+{
+    hide(ids_lose);
+    reveal(sched_vehicles);
+    let types = s.network.vehicle_types.ids_sorted@;
+    let g0 = s.vehicle_ids_grouped_and_sorted@;
+    let g1 = s1.vehicle_ids_grouped_and_sorted@;
+    assert forall|i: int| 0 <= i < types.len() && types[i] != ty implies g1[#[trigger] types[i]]@ == g0[types[i]]@ by {}
+    lemma_listing_lose(types, g0, g1, ty, v);
+}
+/// C10 (transitions_ok: one rotation-cycle structure per vehicle type of the network, the type list is duplicate-free): a type that
+/// has a rotation-cycle structure is listed, once
+pub proof fn lemma_types_listed(s: &Schedule, ty: VehicleTypeIdx)
+    requires s.transitions_ok(), s.next_period_transitions@.contains_key(ty),
+    ensures s.network.vehicle_types.ids_sorted@.no_duplicates(), s.network.vehicle_types.ids_sorted@.contains(ty),
+{
+    hide(TView::wf);
+    assert(sched_types(s) == s.network.vehicle_types.ids_sorted@);
+}
+// [end of LISTING-LEMMAS]
+
+/// the listing of the result FOLLOWS the grouped id lists (listing_follows; formerly a premise): the network is the same; in the
+/// partial case the grouped id lists are the same (lemma_sched_vehicles_frame); in the whole-tour case the list of the provider's type
+/// -- a listed type: it has a rotation-cycle structure; listed once: transitions_ok says the type list is duplicate-free -- loses one
+/// occurrence of the id and the other lists are the same (vehicle_gone, others_untouched)
+pub proof fn lemma_listing_follows_holds(s: &Schedule, segment: Segment, v: VehicleIdx, s1: &Schedule)
+    requires s.rs_ok(), s.rs_effect(segment, v, s1),
+    ensures s.listing_follows(segment, v, s1),
+{
+    hide(Schedule::rs_ok);
+    hide(Schedule::rs_effect);
+    hide(Schedule::sched_ok);
+    hide(Schedule::formations_ok);
+    hide(Schedule::transitions_ok);
+    hide(Schedule::vehicle_ok);
+    hide(Schedule::tour_facts);
+    hide(Schedule::formations_follow);
+    hide(Schedule::transitions_follow);
+    hide(Schedule::removes);
+    hide(Schedule::whole_tour);
+    hide(Schedule::removed_nodes);
+    hide(ids_valid);
+    hide(usage_exact);
+    hide(ids_lose);
+    hide(sorted_cmp);
+    lemma_rs_parts(s);
+    lemma_effect_basic(s, segment, v, s1);
+    lemma_effect_grouped(s, segment, v, s1);
+    assert(s1.network.vehicle_types.ids_sorted@ == s.network.vehicle_types.ids_sorted@);
+    if s.whole_tour(segment, v) {
+        let ty = s.type_of(v);
+        lemma_provider_facts(s, v);
+        lemma_vehicle_ok_parts(s, v);
+        lemma_types_listed(s, ty);
+        assert(ids_lose(s.vehicle_ids_grouped_and_sorted@[ty]@, s1.vehicle_ids_grouped_and_sorted@[ty]@, v));
+        lemma_sched_vehicles_lose(s, s1, ty, v);
+    } else {
+        lemma_sched_vehicles_frame(s1, s);
+    }
+}
+/// the listing of the result is exact (listing_exact) if it follows the grouped id lists (listing_follows)
 pub proof fn lemma_listing_follows(s: &Schedule, segment: Segment, v: VehicleIdx, s1: &Schedule)
     requires s.rs_ok(), s.rs_effect(segment, v, s1), s.listing_follows(segment, v, s1),
     ensures listing_exact(s1),
@@ -2021,6 +2163,19 @@ pub proof fn lemma_listing_follows(s: &Schedule, segment: Segment, v: VehicleIdx
         lemma_maps_at(s, segment, v, s1, u);
         reveal(Schedule::maps_at);
     }
+}
+/// the listing of the result IS exact (listing_exact = the two conjuncts of sched_ok that say what the listing is; formerly the premise
+/// A-listing): it follows the grouped id lists (lemma_listing_follows_holds), and the listing of `self` was exact (sched_ok)
+pub proof fn lemma_listing_exact_holds(s: &Schedule, segment: Segment, v: VehicleIdx, s1: &Schedule)
+    requires s.rs_ok(), s.rs_effect(segment, v, s1),
+    ensures s.listing_follows(segment, v, s1), listing_exact(s1),
+{
+    hide(Schedule::rs_ok);
+    hide(Schedule::rs_effect);
+    hide(Schedule::listing_follows);
+    hide(listing_exact);
+    lemma_listing_follows_holds(s, segment, v, s1);
+    lemma_listing_follows(s, segment, v, s1);
 }
 /// the listed tours' costs after one step: the duplicate-free listing vs1 lists the vehicles of the duplicate-free listing vs --
 /// but v if `gone` --, the tours of all vehicles but v are the same
@@ -2051,11 +2206,11 @@ pub proof fn lemma_costs_step(t0: TourMap, t1: TourMap, vs: Seq<VehicleIdx>, vs1
         lemma_pre_costs_update(t0, t1, vs, p, n);
     }
 }
-/// CLOSURE, sched_ok (listing, C09 costs) UNDER the premise A-listing (listing_exact: the listing of the result is duplicate-free
-/// and matches the stored tours): at most 2^17 vehicles, the costs cover the tours' costs
+/// CLOSURE, sched_ok (listing, C09 costs): the listing of the result is duplicate-free and matches the stored tours (listing_exact:
+/// lemma_listing_exact_holds; no premise any more), at most 2^17 vehicles, the costs cover the tours' costs
 pub proof fn lemma_closure_listing(s: &Schedule, segment: Segment, v: VehicleIdx, s1: &Schedule)
-    requires s.rs_ok(), s.rs_effect(segment, v, s1), listing_exact(s1),
-    ensures s1.so_listing(), s1.so_costs_cover(),
+    requires s.rs_ok(), s.rs_effect(segment, v, s1),
+    ensures listing_exact(s1), s1.so_listing(), s1.so_costs_cover(),
 {
     hide(Schedule::rs_ok);
     hide(Schedule::rs_effect);
@@ -2063,6 +2218,8 @@ pub proof fn lemma_closure_listing(s: &Schedule, segment: Segment, v: VehicleIdx
     hide(Schedule::so_network);
     hide(Schedule::whole_tour);
     hide(Schedule::maps_at);
+    hide(Schedule::listing_follows);
+    lemma_listing_exact_holds(s, segment, v, s1);
     lemma_so_parts(s);
     lemma_effect_costs(s, segment, v, s1);
     let vs = sched_vehicles(s);
@@ -2138,10 +2295,10 @@ pub proof fn lemma_listed_at(s: &Schedule, segment: Segment, v: VehicleIdx, s1: 
 }
 
 // ---- rs_ok -------------------------------------------------------------------------------------------------
-/// CLOSURE, the whole bundle: under A-listing (listing_exact) and the magnitude hypothesis on the result's costs (it holds in the
-/// whole-tour case: the costs shrink) the result satisfies rs_ok again
+/// CLOSURE, the whole bundle: under the magnitude hypothesis on the result's costs (it holds in the whole-tour case: the costs
+/// shrink) the result satisfies rs_ok again (no premise about the listing any more: lemma_closure_listing)
 pub proof fn lemma_closure_rs_ok(s: &Schedule, segment: Segment, v: VehicleIdx, s1: &Schedule)
-    requires s.rs_ok(), s.rs_effect(segment, v, s1), listing_exact(s1), s1.costs <= sched_cost_bound(),
+    requires s.rs_ok(), s.rs_effect(segment, v, s1), s1.costs <= sched_cost_bound(),
     ensures s1.rs_ok(),
 {
     hide(Schedule::rs_effect);
@@ -2173,10 +2330,9 @@ pub proof fn lemma_closure(s: &Schedule, segment: Segment, v: VehicleIdx)
     ensures
         forall|s1: Schedule| #![trigger s1.so_network()] #![trigger s1.so_vehicles()] #![trigger s1.formations_ok()] #![trigger s1.transitions_ok()] #![trigger s.listings_kept(&s1)]
             s.rs_effect(segment, v, &s1) ==> s1.so_network() && s1.so_vehicles() && s1.formations_ok() && s1.transitions_ok() && s.listings_kept(&s1),
-        forall|s1: Schedule| #![trigger s1.so_listing()] #![trigger s1.so_costs_cover()] #![trigger s1.rs_ok()]
-            s.rs_effect(segment, v, &s1) && listing_exact(&s1)
-                ==> s1.so_listing() && s1.so_costs_cover() && (s1.costs <= sched_cost_bound() ==> s1.rs_ok()),
-        forall|s1: Schedule| s.rs_effect(segment, v, &s1) && #[trigger] s.listing_follows(segment, v, &s1) ==> listing_exact(&s1),
+        forall|s1: Schedule| #![trigger s1.so_listing()] #![trigger s1.so_costs_cover()] #![trigger s1.rs_ok()] #![trigger listing_exact(&s1)] #![trigger s.listing_follows(segment, v, &s1)]
+            s.rs_effect(segment, v, &s1)
+                ==> s.listing_follows(segment, v, &s1) && listing_exact(&s1) && s1.so_listing() && s1.so_costs_cover() && (s1.costs <= sched_cost_bound() ==> s1.rs_ok()),
 {
     hide(Schedule::rs_ok);
     hide(Schedule::rs_effect);
@@ -2196,13 +2352,11 @@ pub proof fn lemma_closure(s: &Schedule, segment: Segment, v: VehicleIdx)
         lemma_closure_transitions(s, segment, v, &s1);
         lemma_closure_listed(s, segment, v, &s1);
     }
-    assert forall|s1: Schedule| #![trigger s1.so_listing()] #![trigger s1.so_costs_cover()] #![trigger s1.rs_ok()]
-        s.rs_effect(segment, v, &s1) && listing_exact(&s1)
-        implies s1.so_listing() && s1.so_costs_cover() && (s1.costs <= sched_cost_bound() ==> s1.rs_ok()) by {
+    assert forall|s1: Schedule| #![trigger s1.so_listing()] #![trigger s1.so_costs_cover()] #![trigger s1.rs_ok()] #![trigger listing_exact(&s1)] #![trigger s.listing_follows(segment, v, &s1)]
+        s.rs_effect(segment, v, &s1)
+        implies s.listing_follows(segment, v, &s1) && listing_exact(&s1) && s1.so_listing() && s1.so_costs_cover() && (s1.costs <= sched_cost_bound() ==> s1.rs_ok()) by {
+        lemma_listing_exact_holds(s, segment, v, &s1);
         lemma_closure_listing(s, segment, v, &s1);
         if s1.costs <= sched_cost_bound() { lemma_closure_rs_ok(s, segment, v, &s1); }
-    }
-    assert forall|s1: Schedule| s.rs_effect(segment, v, &s1) && #[trigger] s.listing_follows(segment, v, &s1) implies listing_exact(&s1) by {
-        lemma_listing_follows(s, segment, v, &s1);
     }
 }
